@@ -97,6 +97,9 @@ theorem schmidtRank_local_invariant {K : Type} [Field K] {m n : Nat} (U : Matrix
   have hVt : IsUnit Vᵀ.det := by rwa [Matrix.det_transpose]
   rw [Matrix.rank_mul_eq_left_of_isUnit_det Vᵀ (U * A) hVt, Matrix.rank_mul_eq_right_of_isUnit_det U A hU]
 
+/-- the invertibility hypotheses are satisfiable by a non-trivial matrix -/
+example : IsUnit (!![0, 1; 1, 0] : Matrix (Fin 2) (Fin 2) ℚ).det := by simp [Matrix.det_fin_two]
+
 /-- **Schmidt rank counts the non-zero Schmidt coefficients.**  The amplitude matrix of `Σ_i s_i |i i⟩` in
     `C^{dA} ⊗ C^{dB}` (rectangular diagonal, unequal dimensions allowed, complex `s_i` allowed) has rank
     `#{a < min(dA, dB) : s_a ≠ 0}`. -/
@@ -117,6 +120,31 @@ theorem schmidtRank_closed_form (dA dB : Nat) (s : Nat → ℂ) (U : Matrix (Fin
     (hU : IsUnit U.det) (hV : IsUnit V.det) :
     (U * planted dA dB s * Vᵀ).rank = Fintype.card {a : Fin dA // a.val < dB ∧ s a.val ≠ 0} := by
   rw [schmidtRank_local_invariant U V _ hU hV, schmidtRank_planted]
+
+/-- **Realignment is covariant under local operations**: the realigned matrix of `(U ⊗ V) ρ (U ⊗ V)ᴴ` is
+    `(U ⊗ Ū) · R(ρ) · (V ⊗ V̄)ᵀ` (all dimensions, any commutative star ring). -/
+theorem realign_local_unitary {R : Type} [CommRing R] [StarRing R] {m n : Type} [Fintype m] [Fintype n]
+    (U : Matrix m m R) (V : Matrix n n R) (ρ : Matrix (m × n) (m × n) R) :
+    realign ((U ⊗ₖ V) * ρ * (U ⊗ₖ V)ᴴ) = (U ⊗ₖ U.map star) * realign ρ * (V ⊗ₖ V.map star)ᵀ := by
+  ext ⟨a, a'⟩ ⟨b, b'⟩
+  simp only [realign, Matrix.mul_apply, Matrix.conjTranspose_apply, Matrix.transpose_apply, Matrix.kroneckerMap_apply,
+    Matrix.map_apply, Fintype.sum_prod_type, Finset.sum_mul, star_mul']
+  refine (sum4_perm (fun c d c' d' => U a c * V b d * ρ (c, d) (c', d') * (star (U a' c') * star (V b' d')))).trans ?_
+  apply Finset.sum_congr rfl; intro d _
+  apply Finset.sum_congr rfl; intro d' _
+  apply Finset.sum_congr rfl; intro c _
+  apply Finset.sum_congr rfl; intro c' _
+  ring
+
+/-- **Operator Schmidt rank is invariant under local invertible conjugations** (in particular local unitaries): the realigned matrices
+    of `ρ` and `(U ⊗ V) ρ (U ⊗ V)ᴴ` have the same rank. -/
+theorem operatorSchmidtRank_local_invariant {K : Type} [Field K] [StarRing K] {m n : Type} [Fintype m] [Fintype n] [DecidableEq m] [DecidableEq n]
+    (U : Matrix m m K) (V : Matrix n n K) (ρ : Matrix (m × n) (m × n) K) (hU : IsUnit U.det) (hV : IsUnit V.det) :
+    (realign ((U ⊗ₖ V) * ρ * (U ⊗ₖ V)ᴴ)).rank = (realign ρ).rank := by
+  rw [realign_local_unitary]
+  have h1 := isUnit_det_kron_conj U hU
+  have h2 : IsUnit ((V ⊗ₖ V.map star)ᵀ).det := by rw [Matrix.det_transpose]; exact isUnit_det_kron_conj V hV
+  rw [Matrix.rank_mul_eq_left_of_isUnit_det _ _ h2, Matrix.rank_mul_eq_right_of_isUnit_det _ _ h1]
 
 /-! ## the product test -/
 
@@ -329,6 +357,33 @@ theorem negativity_planted (dA dB : Nat) (s : Nat → ℝ) (hs : ∀ i, 0 ≤ s 
 /-- the unitarity hypotheses are satisfiable by a non-trivial matrix (the swap of the two basis vectors) -/
 example : (!![0, 1; 1, 0] : Matrix (Fin 2) (Fin 2) ℂ)ᴴ * !![0, 1; 1, 0] = 1 := by
   ext i j; fin_cases i <;> fin_cases j <;> simp [Matrix.mul_apply, Fin.sum_univ_two]
+
+/-! ## entanglement of formation of pure states -/
+
+/-- the reduced state of a pure state with amplitude matrix `A` is `A Aᴴ` -/
+theorem reduced_state_eq {m n : Type} [Fintype n] (A : Matrix m n ℂ) (a a' : m) :
+    ∑ b, pureOfAmp A (a, b) (a', b) = (A * Aᴴ) a a' := by
+  simp [pureOfAmp, Matrix.mul_apply, Matrix.conjTranspose_apply]
+
+/-- **Entanglement of formation of a planted state.**  The reduced state `A Aᴴ` of `ψ = (U ⊗ V) Σ_i s_i |i i⟩` (unitary `U`, `V`, unequal
+    dimensions allowed) has characteristic polynomial `Π_a (X − s_a²)` (with `s_a = 0` for `a ≥ dB`): its eigenvalues are the squared Schmidt
+    coefficients, so `entanglement_of_formation` (the entropy of the reduced state) is `H({s_i²})`. -/
+theorem eof_spectrum_planted (dA dB : Nat) (s : Nat → ℝ)
+    (U : Matrix (Fin dA) (Fin dA) ℂ) (V : Matrix (Fin dB) (Fin dB) ℂ) (hU : Uᴴ * U = 1) (hV : Vᴴ * V = 1) :
+    ((U * planted dA dB (fun i => (s i : ℂ)) * Vᵀ) * (U * planted dA dB (fun i => (s i : ℂ)) * Vᵀ)ᴴ).charpoly
+      = ∏ a : Fin dA, (Polynomial.X - Polynomial.C (if a.val < dB then ((s a.val : ℂ)) * star ((s a.val : ℂ)) else 0)) := by
+  have hVV : Vᵀ * Vᵀᴴ = 1 := by
+    have : (Vᴴ * V)ᵀ = 1 := by rw [hV, Matrix.transpose_one]
+    rw [Matrix.transpose_mul] at this
+    rw [← this]; rfl
+  have : (U * planted dA dB (fun i => (s i : ℂ)) * Vᵀ) * (U * planted dA dB (fun i => (s i : ℂ)) * Vᵀ)ᴴ
+      = U * (planted dA dB (fun i => (s i : ℂ)) * (planted dA dB (fun i => (s i : ℂ)))ᴴ) * Uᴴ := by
+    rw [Matrix.conjTranspose_mul, Matrix.conjTranspose_mul]
+    calc U * planted dA dB (fun i => (s i : ℂ)) * Vᵀ * (Vᵀᴴ * ((planted dA dB fun i => (s i : ℂ))ᴴ * Uᴴ))
+        = U * planted dA dB (fun i => (s i : ℂ)) * (Vᵀ * Vᵀᴴ) * (planted dA dB fun i => (s i : ℂ))ᴴ * Uᴴ := by
+          simp only [Matrix.mul_assoc]
+      _ = _ := by rw [hVV]; simp only [Matrix.mul_one, Matrix.mul_assoc]
+  rw [this, planted_mul_ct, charpoly_planted_spectrum U _ hU]
 
 /-! ## verified rank certificates (exact oracle of the Schmidt rank used by the harness) -/
 
